@@ -10,12 +10,16 @@
 
     Not modelled: PCZT bytes, lock owners, spend-nullifier caches (opaque payloads that no
     decision reads), the advisory outlook [Advance::next] / [upcoming_step] / [step_floor],
-    [sync_wakeup_schedule], the rebuild functions of engine.rs.
+    [sync_wakeup_schedule]; of the rebuild functions of engine.rs the state-level part is modelled
+    ([rebuild]), their wallet/crypto part is an oracle.
 
-    Heights are [Z] in [0, 2^32); [BlockHeight + u32] saturates at [u32::MAX] as in the code.
-    The plain [u32] additions [boundary + PROVABLE_ANCHOR_DEPTH (+ 1)] of [prove_ready] and of the
-    overdue test panic in a debug build when [boundary > u32::MAX - 11]; that range is excluded by
-    [wf] (Wf.v) rather than modelled.
+    Heights are [Z] in [0, 2^32); [BlockHeight + u32] saturates at [u32::MAX] as in the code, and
+    so does [boundary + PROVABLE_ANCHOR_DEPTH] in [prove_ready] (repaired: it was a plain [u32]
+    addition that panicked in a debug build for a boundary above [u32::MAX - 10], reachable through
+    [advance_migration]; known_findings.d/C18.json C18-F3).  The remaining plain addition
+    [boundary + PROVABLE_ANCHOR_DEPTH + 1] of the overdue test is only evaluated on the members of
+    a [Prove] step, whose boundaries satisfy [boundary + PROVABLE_ANCHOR_DEPTH < scanned <= u32::MAX]
+    ([prove_candidate_no_overflow] in ProofsTerm.v), so it never overflows and is modelled in [Z].
 
     No proofs in this file. *)
 From V.Lib Require Import Base.
@@ -151,7 +155,7 @@ Definition prove_ready (s : mstate) (tg : targets) (t : mtx) : bool :=
   if is_expired t (tg_eff tg) then false
   else if negb (deps_mined (m_txs s) (t_deps t)) then false
   else match t_anchor t with
-       | Some b => b + PROVABLE_ANCHOR_DEPTH <? tg_scanned tg
+       | Some b => sat_add b PROVABLE_ANCHOR_DEPTH <? tg_scanned tg
        | None => t_sched t <=? tg_eff tg
        end.
 
@@ -316,6 +320,59 @@ Fixpoint closure_loop (fuel : nat) (txs : list mtx) (scanned : Z) : list mtx :=
 Definition record_satisfiability (s : mstate) (tg : targets) (dets : list (Z * answer)) : mstate :=
   let txs1 := fold_left direct_mark dets (m_txs s) in
   set_txs s (closure_loop (S (length txs1)) txs1 (tg_scanned tg)).
+
+(* ------------------------------------------------------------------------------------------ *)
+(** * Rebuild of an expired transfer (engine.rs, [rebuild_expired_transfer_inner])
+
+    The state-level part: the guards decided from the persisted state (in the order the code
+    checks them), and the replacement of the row.  The new scheduled height is the chain base plus
+    a drawn delay, the new expiry is the canonical [expiry_height] of that schedule; the drawn
+    delay, the drawn anchor boundary and the new transaction's id are oracle values (RNG, PCZT
+    construction).  Everything the rebuild needs from the wallet after the guards (viewing key,
+    the funding note, NU6.3 activation, a candidate anchor, PCZT construction) is one oracle bit
+    [crypto_ok]: when it fails the state is left untouched. *)
+Inductive rebuild_err := RMismatch | RUnknown | RNotTransfer | RUnsatisfiable | RNotExpired.
+
+Definition dep_marked (txs : list mtx) (d : Z) : bool :=
+  existsb (fun x => has_id d x && is_some (t_unsat x)) txs.
+
+Definition rebuild_guard (s : mstate) (id target : Z) (grid_ok : bool) : option rebuild_err :=
+  if negb grid_ok then Some RMismatch else
+  match find_tx id (m_txs s) with
+  | None => Some RUnknown
+  | Some t =>
+    if negb (is_transfer t) then Some RNotTransfer
+    else if is_some (t_unsat t) || existsb (dep_marked (m_txs s)) (t_deps t) then Some RUnsatisfiable
+    else if negb (is_expired t target) then Some RNotExpired
+    else None
+  end.
+
+(** [zip318::expiry_height] *)
+Definition expiry_height (h : Z) : Z := sat_add (h - h mod EXPIRY_MODULUS) EXPIRY_WINDOW.
+
+(** the latest schedule among the still-pending transfers, clamped below by the target *)
+Definition chain_base (s : mstate) (target : Z) : Z :=
+  fold_left (fun m t => if is_transfer t && negb (is_mined t) && negb (is_some (t_unsat t))
+                        then Z.max m (t_sched t) else m) (m_txs s) target.
+
+Definition rebuilt_row (t : mtx) (external : bool) (sched anchor txid : Z) : mtx :=
+  MkTx (t_id t) (t_kind t) (t_deps t) sched (expiry_height sched) (Some anchor) txid (t_unsat t) (t_fail t)
+       (if external then AwaitingSig else Signed).
+
+Definition rebuild_apply (s : mstate) (id : Z) (external : bool) (sched anchor txid : Z) : mstate :=
+  set_txs s (update_first (has_id id) (fun t => rebuilt_row t external sched anchor txid) (m_txs s)).
+
+Inductive rebuild_res := RbOk | RbErr (e : rebuild_err) | RbLate.
+
+(** [delay >= 0] is the drawn inter-arrival delay *)
+Definition rebuild (s : mstate) (id target : Z) (grid_ok crypto_ok external : bool) (delay anchor txid : Z)
+  : mstate * rebuild_res :=
+  match rebuild_guard s id target grid_ok with
+  | Some e => (s, RbErr e)
+  | None => if crypto_ok
+            then (rebuild_apply s id external (sat_add (chain_base s target) delay) anchor txid, RbOk)
+            else (s, RbLate)
+  end.
 
 (* ------------------------------------------------------------------------------------------ *)
 (** * Anchor redraw (scheduling.rs) under a scripted RNG
